@@ -8,6 +8,7 @@ import IpcHub.Model.AuthSess
 import IpcHub.Model.PathMatchInst
 import IpcHub.Gen.C11Facts
 import IpcHub.Model.AuthExpect
+import IpcHub.Model.Ids
 namespace IpcHub.Auth
 open IpcHub.PathMatch
 
@@ -31,5 +32,17 @@ def genCfg : Cfg :=
     refreshTTL := Gen.refreshTTL
     noAuth := Gen.noAuthRequired.map String.toList
     streamQueryPrefix := Gen.roleExemptPrefix.toList }
+
+/-- how the current source makes tokens and nonces: a crypto/rand draw only if every site has the
+    reviewed shape (NewToken's two fields, NewSecret itself and what `rand` it imports, the two nonce
+    sites of the RTSP session); anything else is treated as the counter-derived scheme -/
+def genSource : Ids.Source :=
+  if decide (Gen.tokenField_AToken = Expected.tokenField_AToken) &&
+     decide (Gen.tokenField_RToken = Expected.tokenField_RToken) &&
+     decide (Gen.skel_newSecret = Expected.skel_newSecret) &&
+     decide (Gen.securityRandImports = Expected.securityRandImports) &&
+     decide (Gen.skel_rtspNewSessionWs = Expected.skel_rtspNewSessionWs) &&
+     decide (Gen.skel_rtspCheckAuth = Expected.skel_rtspCheckAuth)
+  then .randomDraw else .md5OfCounter
 
 end IpcHub.Auth
